@@ -4,6 +4,7 @@ import (
 	"bytes"
 	"encoding/json"
 	"fmt"
+	"hash"
 
 	ike "github.com/free5gc/ike"
 	"github.com/free5gc/ike/message"
@@ -46,6 +47,21 @@ func warmMsg(w int) ref.Msg {
 // warmUp makes sender and receiver key objects carry one message in the given direction.
 func warmUp(saS, saR *security.IKESAKey, senderI bool, w int) error {
 	if w == 0 {
+		return nil
+	}
+	if w == 4 || w == 5 {
+		// the caller used the exported hash objects of both key objects for computations of its own (AUTH payload
+		// octets, a rekey SKEYSEED, a checksum it verified itself) and left them as they were: Reset, Write, Sum
+		// (w == 4: the sender's objects, w == 5: the receiver's — if both ends did the same, both would be wrong alike)
+		for _, sa := range []*security.IKESAKey{map[int]*security.IKESAKey{4: saS, 5: saR}[w]} {
+			for _, h := range []hash.Hash{sa.Integ_i, sa.Integ_r, sa.Prf_d, sa.Prf_i, sa.Prf_r} {
+				if h != nil {
+					h.Reset()
+					h.Write(univ.Pat(37, 5))
+					h.Sum(nil)
+				}
+			}
+		}
 		return nil
 	}
 	lm, err := univ.Build(warmMsg(w))
@@ -128,6 +144,8 @@ func runC01(c *engine.Ctx) {
 							evalC01(c, c01Case{K: "rt", Name: name, M: m, Suite: si, Pattern: pat, SenderI: sI, ParseH: ph, Fits: true, Warm: 1 + (si+b2int(sI)+b2int(ph))%2})
 							if !ph && len(m.P) <= 1 {
 								evalC01(c, c01Case{K: "rt", Name: name, M: m, Suite: si, Pattern: pat, SenderI: sI, Fits: true, Warm: 3})
+								evalC01(c, c01Case{K: "rt", Name: name, M: m, Suite: si, Pattern: pat, SenderI: sI, ParseH: si%2 == 0, Fits: true, Warm: 4})
+								evalC01(c, c01Case{K: "rt", Name: name, M: m, Suite: si, Pattern: pat, SenderI: sI, ParseH: si%2 == 1, Fits: true, Warm: 5})
 								evalC01(c, c01Case{K: "rt", Name: name, M: m, Suite: si, Pattern: pat, SenderI: sI, Fits: true, Derived: 1})
 								evalC01(c, c01Case{K: "rt", Name: name, M: m, Suite: si, Pattern: pat, SenderI: sI, Fits: true, Derived: 2})
 							}
@@ -203,6 +221,11 @@ func runC01(c *engine.Ctx) {
 		si := i % 9
 		icv := ref.Suites()[si].Integ.OutLen
 		evalC01(c, c01Case{K: "rt", Name: name, M: m, Suite: si, Pattern: 2, SenderI: i%2 == 0, ParseH: i%4 < 2, Fits: protectedFits(m, icv)})
+		// the same entry points without keys: every message too large to be protected (chains beyond 64 KiB), and a
+		// share of the others
+		if !protectedFits(m, icv) || i%16 == 0 {
+			evalC01(c, c01Case{K: "nil", Name: name, M: m, Fits: true})
+		}
 	})
 }
 
